@@ -15,6 +15,7 @@ def run(rep, tier):
     tol.r_tol_once(rep, f)
     tol.r_tol_index(rep, f)
     tol.r_parity(rep, f)
+    tol.r_parity_hinit(rep, f)
     tol.r_grade_solvers(rep, f)
     tol.r_grade_hinit(rep, f)
     rep.explanation = ("Decides the structural part of the symmetries: parity of every time-like quantity under reflection, homogeneity of every step-size decision input under scaling and duplication, "
